@@ -296,8 +296,19 @@ class _FakeGatt:
             self.expect = None
             self.pending = self.pieces.pop(0) if self.pieces else b""
 
+    wrapper = None  # how the accessory wraps each reply into the HAP-Param-Value item of the response PDU (None: one item, fragmented at 255)
+
     async def read_gatt_char(self, handle):
         value = ref.encode([(1, self.pending)])
+        w = self.wrapper
+        if w and w[0] == "short-chunks":
+            # the value travels as several adjacent type-1 chunks shorter than 255 bytes (a TLV8 reader joins equal-typed neighbours whatever their size)
+            n = w[1]
+            value = b"".join(bytes((1, len(self.pending[i : i + n]))) + self.pending[i : i + n] for i in range(0, len(self.pending), n)) or bytes((1, 0))
+        elif w and w[0] == "declared-too-long":
+            value = value[: len(value) - w[1]]  # the item declares more bytes than the body holds (the PDU's own length is consistent)
+        elif w and w[0] == "lone-type":
+            value = value + bytes((w[1],))
         return bytes((0x02, self.tid, 0)) + len(value).to_bytes(2, "little") + value
 
 
@@ -325,7 +336,14 @@ def case_blefrag(params):
         pieces = [body]
     else:
         pieces = [ref.encode([(12, p)]) for p in parts[:-1]] + [ref.encode([(13, parts[-1])])]
+    abort = params.get("abort_after")
+    if abort is not None:
+        # after `abort` FragmentData replies the accessory gives the streamed reply up and answers the next acknowledgement with a plain reply
+        plain_reply = ref.encode([(6, b"\x02"), (7, b"\x02")])
+        pieces = pieces[:abort] + [plain_reply]
     gatt = _FakeGatt(pieces)
+    if params.get("wrapper"):
+        gatt.wrapper = tuple(params["wrapper"])
     request = [(6, bytearray(b"\x01")), (0, bytearray(b"\x01"))]
     via = params.get("via")
     try:
@@ -351,10 +369,22 @@ def case_blefrag(params):
     except core.HarnessError:
         raise
     except Exception as e:  # noqa: BLE001
-        return [(f"blefrag-raises:{type(e).__name__}", {"spec": spec, "cuts": params["cuts"], "err": str(e)[:200]})]
+        _, TlvParseException = _tlv()
+        if isinstance(e, TlvParseException) and (abort is not None or (params.get("wrapper") and params["wrapper"][0] != "short-chunks")):
+            return []  # a damaged / broken-off reply: the codec's own parse error is the one admissible failure
+        return [(f"blefrag-raises:{type(e).__name__}" + (":reply-broken-off-by-a-plain-one" if abort is not None else ":wrapper-" + params["wrapper"][0] if params.get("wrapper") else ""), {"spec": spec, "cuts": params["cuts"], "err": str(e)[:200], "wrapper": params.get("wrapper")})]
     want = {t: v for t, v in ref.decode(body)}
     got = {int(k): bytes(v) for k, v in res.items()}
     out = []
+    if abort is not None:
+        # handing the plain reply to the caller (who sees the error item) is what a conformant reader does
+        if got != {6: b"\x02", 7: b"\x02"}:
+            out.append(("blefrag:plain-reply-that-breaks-a-stream-off-not-handed-over", {"spec": spec, "cuts": params["cuts"], "abort_after": abort, "got": {k: len(v) for k, v in got.items()}}))
+        return out
+    if params.get("wrapper") and params["wrapper"][0] in ("declared-too-long", "lone-type"):
+        if got != want:
+            out.append(("blefrag:damaged-wrapper-yields-a-shorter-reply-instead-of-the-parse-error", {"spec": spec, "wrapper": params["wrapper"], "got": {k: len(v) for k, v in got.items()}, "want": {k: len(v) for k, v in want.items()}}))
+        return out
     if got != want:
         out.append(("blefrag:reassembly-differs" + (":via-pairing-driver" if via else ""), {"spec": spec, "cuts": params["cuts"], "via": via, "got": {k: len(v) for k, v in got.items()}}))
     if gatt.pieces:
@@ -470,6 +500,18 @@ def run(ctx):
             for k in range(0, 3):
                 for cuts in itertools.combinations(range(1, n, 1 if not quick else 3), k):
                     bl.append({"spec": s, "cuts": list(cuts), "via": via})
+    for s in bspecs + [[(6, 1), (3, 384), (5, 300)]]:
+        n = len(ref.encode(_mk_list(s)))
+        for via in (None, "all"):
+            extra = {"via": via} if via else {}
+            for k in (1, 2, 3):
+                for cuts in itertools.combinations(range(1, n, max(1, n // 6)), k):
+                    for ab in range(1, k + 1):
+                        bl.append({"spec": s, "cuts": list(cuts), "abort_after": ab, **extra})
+            for w in [["short-chunks", c] for c in (1, 7, 100, 254)] + [["declared-too-long", d] for d in range(1, min(n, 40))] + [["lone-type", t] for t in (1, 6, 0, 255)]:
+                bl.append({"spec": s, "cuts": [], "plain": True, "wrapper": w, **extra})
+                if w[0] == "short-chunks":
+                    bl.append({"spec": s, "cuts": [n // 2], "wrapper": w, **extra})
     long = [(6, 1), (3, 384), (5, 300)]
     n = len(ref.encode(_mk_list(long)))
     for c in range(1, n, 1 if not quick else 5):
